@@ -799,7 +799,9 @@ class Gen:
         body = []
         if recursive:
             # bounded recursion on the first parameter
-            inner["vars"][name] = tfn(ptypes, ret)
+            # the function's own name is NOT put in scope of the generated body: the only self-call is the explicit one below, whose
+            # first argument decreases.  (A base case that called the function again - `if p <= 0: return f(big, s + s)` - was an
+            # unbounded recursion doubling a string per level: 4 GiB after 30 levels, long before the call-stack limit.)
             base = ("if", ("bin", "<=", ("var", pnames[0]), ("int", 0)), [("return", self.expr(inner, ret, 1))], [])
             body.append(base)
             self.note("recursive_def")
